@@ -29,6 +29,7 @@ EXPLANATION = (
     "discipline of the format helpers (the set of lru_cached helpers is the triaged one). Does not decide any rendered "
     "string or round-trip equality.")
 EXPLANATION += " Also decided (rules added after the second round of seeded changes): the sort functions' keys are total (no raise for a resolvable unit) and dim_order is a well-formed table containing the '[]' sentinel."
+EXPLANATION += " Also decided (round 5): the compact modifier '#' is looked for in the defaulted spec (`spec or default_format`) of FullFormatter.format_quantity / format_measurement; the `~` formats take each symbol from the canonical unit's own definition (registry._get_symbol == _units[name].symbol), never by re-parsing the name."
 
 # documented layouts (docs/user/formatting.rst and the docstrings of the format classes)
 LAYOUT = {
